@@ -8,6 +8,12 @@ package aggregate
 //@   requires stepsBatch >= 0
 //@   ensures[C08] err-is-unsupported: result1 != nil ==> (result1.isNS || result1.isNI) && result0 == nil
 //@   ensures ok-nonnil: result1 == nil ==> result0 != nil
+// The operator is built with one parameter slot and one worker per step of a batch and with the
+// accumulator constructor of its aggregation: the shape Next and initializeTables rely on.
+//@   ensures[C04,C13,C18] built-for-the-batch-size: result1 == nil ==> istype(result0, *aggregate.aggregate) && aggShape(cast(result0, *aggregate.aggregate)) &&
+//@       cast(result0, *aggregate.aggregate).stepsBatch == stepsBatch && cast(result0, *aggregate.aggregate).next == next &&
+//@       cast(result0, *aggregate.aggregate).paramOp == paramOp && cast(result0, *aggregate.aggregate).vectorPool == points &&
+//@       cast(result0, *aggregate.aggregate).by == by && cast(result0, *aggregate.aggregate).aggregation == aggregation
 
 //@ func NewKHashAggregate
 //@   requires stepsBatch >= 0
@@ -63,14 +69,38 @@ package aggregate
 // operator is pulled exactly once for every batch of the input, so both stay on the same steps.
 // Assumed: the worker hand-off (worker i returns workerTask(i, arg, vector) of the matching Send),
 // and that a batch is not longer than the batch size the operator was built for.
-//@ pred aggInv(a) = a != nil && a.next != nil && a.vectorPool != nil && len(a.params) == a.stepsBatch && len(a.workers) == a.stepsBatch &&
-//@     (forall j in 0..len(a.workers) :: a.workers[j] != nil) && (a.paramOp != nil ==> a.paramOp.oneSamplePerStep)
+//@ pred aggShape(a) = a != nil && len(a.params) == a.stepsBatch && len(a.workers) == a.stepsBatch && !isnil(a.newAccumulator) &&
+//@     (forall j in 0..len(a.workers) :: a.workers[j] != nil)
+//@ pred aggInv(a) = aggShape(a) && a.next != nil && a.vectorPool != nil && (a.paramOp != nil ==> a.paramOp.oneSamplePerStep)
+// initializeTables: verified. Tables and series are set together, and only after both were built
+// without error; the workers are started last, so a worker never sees a missing table.
 //@ func (*aggregate).initializeTables
-//@   trusted not yet under contract (series hashing and table construction); assumed to start the workers
-//@   requires a != nil && ctx != nil
+//@   requires ctx != nil && aggInv(a)
 //@   panics may
 //@   assigns aggregate.aggregate.tables, aggregate.aggregate.series, ghost started
-//@   ensures result == nil ==> forall j in 0..len(a.workers) :: a.workers[j].started
+//@   ensures[C13,C18] workers-started: result == nil ==> forall j in 0..len(a.workers) :: a.workers[j].started
+//@   ensures[C04,C18] one-table-per-step: result == nil ==> len(a.tables) == a.stepsBatch && (forall i in 0..len(a.tables) :: a.tables[i] != nil)
+//@   ensures[C15] series-error-surfaces: ncalls("model.VectorOperator.Series") >= 1 && callres("model.VectorOperator.Series", 1, 1) != nil ==> result != nil
+//@ func (*aggregate).initializeVectorizedTables
+//@   requires ctx != nil && aggInv(a)
+//@   panics may
+//@   assigns nothing
+//@   ensures[C04,C18] one-table-per-step: result2 == nil ==> len(result0) == a.stepsBatch && (forall i in 0..len(result0) :: result0[i] != nil)
+//@   ensures[C15] series-error-surfaces: ncalls("model.VectorOperator.Series") >= 1 && callres("model.VectorOperator.Series", 1, 1) != nil ==> result2 != nil
+// workerTask(i, arg, vector), the task of the worker of step i: the table of step i aggregates that
+// vector with that parameter, and the result is that table's vector.
+//@ interface aggregate.aggregateTable.aggregate(t, arg, vector)
+//@   panics may
+//@ interface aggregate.aggregateTable.toVector(t, pool) r
+//@   panics may
+//@ func (*aggregate).workerTask
+//@   requires a != nil && 0 <= workerID && workerID < len(a.tables) && a.tables[workerID] != nil
+//@   panics may
+//@   at aggregate.aggregateTable.aggregate assert[C04] steps-table-aggregates-the-steps-vector: $t == a.tables[workerID] && $arg == arg &&
+//@       $vector.T == vector.T && sameslice($vector.Samples, vector.Samples) && sameslice($vector.SampleIDs, vector.SampleIDs)
+//@   at aggregate.aggregateTable.toVector assert[C04] vector-of-the-steps-table: $t == old(a.tables[workerID]) && $pool == old(a.vectorPool)
+//@   ensures[C04] result-is-the-tables-vector: ncalls("aggregate.aggregateTable.aggregate") == 1 && result.T == callres("aggregate.aggregateTable.toVector", 1).T &&
+//@       sameslice(result.Samples, callres("aggregate.aggregateTable.toVector", 1).Samples) && sameslice(result.SampleIDs, callres("aggregate.aggregateTable.toVector", 1).SampleIDs)
 //@ func (*aggregate).Next
 //@   requires ctx != nil && aggInv(a) && allocated(a.params)
 //@   requires tables-initialized-once: a.once != 0 ==> forall j in 0..len(a.workers) :: a.workers[j].started
@@ -307,3 +337,62 @@ package aggregate
 //@   at line "result.SampleIDs = append(result.SampleIDs, v.ID)" assert[C04] only-groups-with-a-value-are-emitted: callres("field:execution/aggregate.accumulator.HasValue", ncalls("field:execution/aggregate.accumulator.HasValue")) && v.ID == i
 //@   loop 0 invariant tableInv(t) && preexisting(t.inputs) && result.T == t.timestamp && len(result.SampleIDs) == len(result.Samples) && fresh(result.SampleIDs) && fresh(result.Samples) &&
 //@       (forall j in 0..len(result.SampleIDs) :: result.SampleIDs[j] < len(t.outputs))
+
+// The constructors of the accumulators return complete accumulators; a table built from them
+// satisfies the table invariant (one accumulator per output series).
+//@ func makeAccumulatorFunc$1
+//@   ensures[C04,C13] complete-accumulator: result != nil && fresh(result) && !isnil(result.AddFunc) && !isnil(result.ValueFunc) && !isnil(result.HasValue) && !isnil(result.Reset)
+//@ func makeAccumulatorFunc$2
+//@   ensures[C04,C13] complete-accumulator: result != nil && fresh(result) && !isnil(result.AddFunc) && !isnil(result.ValueFunc) && !isnil(result.HasValue) && !isnil(result.Reset)
+//@ func makeAccumulatorFunc$3
+//@   ensures[C04,C13] complete-accumulator: result != nil && fresh(result) && !isnil(result.AddFunc) && !isnil(result.ValueFunc) && !isnil(result.HasValue) && !isnil(result.Reset)
+//@ func makeAccumulatorFunc$4
+//@   ensures[C04,C13] complete-accumulator: result != nil && fresh(result) && !isnil(result.AddFunc) && !isnil(result.ValueFunc) && !isnil(result.HasValue) && !isnil(result.Reset)
+//@ func makeAccumulatorFunc$5
+//@   ensures[C04,C13] complete-accumulator: result != nil && fresh(result) && !isnil(result.AddFunc) && !isnil(result.ValueFunc) && !isnil(result.HasValue) && !isnil(result.Reset)
+//@ func makeAccumulatorFunc$6
+//@   ensures[C04,C13] complete-accumulator: result != nil && fresh(result) && !isnil(result.AddFunc) && !isnil(result.ValueFunc) && !isnil(result.HasValue) && !isnil(result.Reset)
+//@ func makeAccumulatorFunc$7
+//@   ensures[C04,C13] complete-accumulator: result != nil && fresh(result) && !isnil(result.AddFunc) && !isnil(result.ValueFunc) && !isnil(result.HasValue) && !isnil(result.Reset)
+//@ func makeAccumulatorFunc$8
+//@   ensures[C04,C13] complete-accumulator: result != nil && fresh(result) && !isnil(result.AddFunc) && !isnil(result.ValueFunc) && !isnil(result.HasValue) && !isnil(result.Reset)
+//@ func makeAccumulatorFunc$9
+//@   ensures[C04,C13] complete-accumulator: result != nil && fresh(result) && !isnil(result.AddFunc) && !isnil(result.ValueFunc) && !isnil(result.HasValue) && !isnil(result.Reset)
+//@ extern field:execution/aggregate.newScalarTable#newAccumulator() r
+//@   ensures r != nil && fresh(r) && !isnil(r.AddFunc) && !isnil(r.ValueFunc) && !isnil(r.HasValue) && !isnil(r.Reset)
+//@ func newScalarTable
+//@   requires !isnil(newAccumulator) && (forall j in 0..len(outputs) :: outputs[j] != nil && outputs[j].ID == j) && (forall i in 0..len(inputSampleIDs) :: inputSampleIDs[i] < len(outputs))
+//@   assigns nothing
+//@   ensures[C04,C13] table-invariant-established: result != nil && fresh(result) && tableInv(result) && sameslice(result.inputs, inputSampleIDs) && sameslice(result.outputs, outputs)
+//@   loop 0 invariant 0 <= i && i <= len(accumulators) && len(accumulators) == len(outputs) && fresh(accumulators) && !isnil(newAccumulator) &&
+//@       (forall j in 0..i :: accumulators[j] != nil && !isnil(accumulators[j].AddFunc) && !isnil(accumulators[j].ValueFunc) && !isnil(accumulators[j].HasValue) && !isnil(accumulators[j].Reset)) &&
+//@       (forall j in 0..len(outputs) :: outputs[j] != nil && outputs[j].ID == j) && (forall i2 in 0..len(inputSampleIDs) :: inputSampleIDs[i2] < len(outputs))
+//@ func newScalarTables
+//@   requires stepsBatch >= 0 && !isnil(newAccumulator) && (forall j in 0..len(outputCache) :: outputCache[j] != nil && outputCache[j].ID == j) && (forall i in 0..len(inputCache) :: inputCache[i] < len(outputCache))
+//@   assigns nothing
+//@   ensures[C04,C18] one-table-per-step-of-a-batch: len(result) == stepsBatch && fresh(result) && (forall i in 0..len(result) :: istype(result[i], *aggregate.scalarTable) && tableInv(cast(result[i], *aggregate.scalarTable)) &&
+//@       sameslice(cast(result[i], *aggregate.scalarTable).outputs, outputCache) && sameslice(cast(result[i], *aggregate.scalarTable).inputs, inputCache))
+//@   loop 0 invariant 0 <= i && i <= len(tables) && len(tables) == stepsBatch && fresh(tables) && !isnil(newAccumulator) &&
+//@       (forall j in 0..len(outputCache) :: outputCache[j] != nil && outputCache[j].ID == j) && (forall i2 in 0..len(inputCache) :: inputCache[i2] < len(outputCache)) &&
+//@       (forall k in 0..i :: istype(tables[k], *aggregate.scalarTable) && tableInv(cast(tables[k], *aggregate.scalarTable)) &&
+//@           sameslice(cast(tables[k], *aggregate.scalarTable).outputs, outputCache) && sameslice(cast(tables[k], *aggregate.scalarTable).inputs, inputCache))
+
+// initializeScalarTables (C04, C13, C15): every input series is mapped to one output series (its group);
+// output ids are dense; one label set per output series; one table per step of a batch. That two
+// series share a group exactly when their group labels agree rests on the label hash (assumed injective).
+//@ func (*aggregate).initializeScalarTables
+//@   requires a != nil && ctx != nil && a.next != nil && a.vectorPool != nil && a.stepsBatch >= 0 && !isnil(a.newAccumulator)
+//@   panics may
+//@   assigns nothing
+//@   ghostvar mw seqint = constseq(-1)
+//@   at line "outputMap[hash] = output" set mw = store(mw, hash, len(outputCache))
+//@   ensures[C15] series-error-surfaces: callres("model.VectorOperator.Series", 1, 1) != nil ==> result2 != nil
+//@   ensures[C04,C18] one-table-per-step-and-one-label-set-per-group: result2 == nil ==> len(result0) == a.stepsBatch &&
+//@       (forall i in 0..len(result0) :: istype(result0[i], *aggregate.scalarTable) && tableInv(cast(result0[i], *aggregate.scalarTable)) && len(cast(result0[i], *aggregate.scalarTable).outputs) == len(result1))
+//@   loop 0 invariant shape: a != nil && a.vectorPool != nil && a.stepsBatch >= 0 && !isnil(a.newAccumulator) && 0 <= i && i <= len(series) && len(inputCache) == len(series) && fresh(inputCache) && !isnil(outputMap) &&
+//@       (isnil(outputCache) || fresh(outputCache)) && allocated(outputCache) && len(outputCache) <= i && len(series) <= 9223372036854775807
+//@   loop 0 invariant outputs-dense: forall j in 0..len(outputCache) :: outputCache[j] != nil && allocated(outputCache[j]) && outputCache[j].ID == j
+//@   loop 0 invariant map-values-are-outputs: forall k in ALL..ALL :: has(outputMap, k) ==> 0 <= mw[k] && mw[k] < len(outputCache) && outputMap[k] == outputCache[mw[k]]
+//@   loop 0 invariant inputs-mapped: forall j in 0..i :: inputCache[j] < len(outputCache)
+//@   loop 1 invariant 0 <= i && i <= len(outputCache) && len(series) == len(outputCache) && fresh(series) && (forall j in 0..len(outputCache) :: outputCache[j] != nil) &&
+//@       len(tables) == a.stepsBatch && (forall k in 0..len(tables) :: istype(tables[k], *aggregate.scalarTable) && tableInv(cast(tables[k], *aggregate.scalarTable)) && len(cast(tables[k], *aggregate.scalarTable).outputs) == len(outputCache))
